@@ -25,6 +25,8 @@ structure SInv (P : Problem S U δ) (starts : List S) (draws : List (Draw S U)) 
     ∃ last, PathGood P starts draws p last ∧ (st.solution.isSome = true → (P.goal last).1 = true)
   havePrev : (st.solution.isSome = true ∨ st.approxsol.isSome = true) → st.prevSolution.isSome = true
   inact : ∀ i : Nat, st.inactive[i]?.getD false = false
+  /-- the flag array is as long as the tree: `inact` is about every motion, not a statement made true by `getD`'s default -/
+  isz : st.inactive.size = st.tree.size
   nn : st.nn = List.range st.tree.size
 
 /-- `findClosestWitness` only ever changes the witness set -/
@@ -65,6 +67,9 @@ theorem push_inv (P : Problem S U δ) (starts : List S) (draws : List (Draw S U)
   prev := hI.prev
   havePrev := hI.havePrev
   inact := inact_push _ hI.inact
+  isz := by
+    show (st.inactive.push false).size = (st.tree.push m).size
+    rw [Array.size_push, Array.size_push, hI.isz]
   nn := by
     show st.nn ++ [st.tree.size] = List.range (st.tree.push m).size
     rw [Array.size_push, List.range_succ, hI.nn]
@@ -72,7 +77,7 @@ theorem push_inv (P : Problem S U δ) (starts : List S) (draws : List (Draw S U)
 theorem wits_inv (P : Problem S U δ) (starts : List S) (draws : List (Draw S U)) (st : St S U δ)
     (hI : SInv P starts draws st) (w : Array (Wit S)) :
     SInv P starts draws { st with wits := w } :=
-  ⟨hI.tree, hI.prev, hI.havePrev, hI.inact, hI.nn⟩
+  ⟨hI.tree, hI.prev, hI.havePrev, hI.inact, hI.isz, hI.nn⟩
 
 theorem addRoot_inv (P : Problem S U δ) (starts : List S) (draws : List (Draw S U)) (st : St S U δ)
     (s : S) (hs : s ∈ starts) (hv : P.valid s = true) (hI : SInv P starts draws st) :
@@ -99,7 +104,7 @@ theorem init_inv (P : Problem S U δ) (starts : List S) (draws : List (Draw S U)
       exact ih _ (fun x hx => hl x (List.mem_cons_of_mem _ hx))
         (addRoot_inv P starts draws st s hs.1 hs.2 h)
   refine key _ _ (fun s hs => List.mem_filter.mp hs) ?_
-  refine ⟨?_, ?_, ?_, ?_, rfl⟩
+  refine ⟨?_, ?_, ?_, ?_, rfl, rfl⟩
   · intro i m h; simp at h
   · intro p h; cases h
   · intro h; rcases h with h | h <;> cases h
@@ -168,7 +173,7 @@ theorem iter_inv (P : Problem S U δ) (starts : List S) (draws : List (Draw S U)
               Bool.false_eq_true, if_false]
             have hI3 : SInv P starts draws { tree := st.tree.push { state := reached, control := d.control, steps := d.steps, parent := some n }, cost := st.cost.push cost, nchild := (st.nchild.modify n (· + 1)).push 0, inactive := st.inactive.push false, nn := st.nn ++ [st.tree.size], wits := w2, solution := some st.tree.size, approxsol := st.approxsol, approxdif := (P.goal reached).2, prevSolution := some (reported (st.tree.push { state := reached, control := d.control, steps := d.steps, parent := some n }) st.tree.size), prevSolutionCost := cost } :=
               ⟨hI2.tree, fun p hp => ⟨reached, by cases Option.some.inj hp; exact hpg, fun _ => hg⟩,
-                fun _ => rfl, hI2.inact, hI2.nn⟩
+                fun _ => rfl, hI2.inact, hI2.isz, hI2.nn⟩
             repeat' split
             all_goals first | exact hI3 | (rw [pruneLoop_id _ hI3.inact]; exact hI3)
           · have hsolv' : ((P.goal reached).1 && P.lt cost st.prevSolutionCost) = false := by
@@ -183,7 +188,7 @@ theorem iter_inv (P : Problem S U δ) (starts : List S) (draws : List (Draw S U)
                 ⟨hI2.tree,
                   fun p hp => ⟨reached, by cases Option.some.inj hp; exact hpg,
                     fun h => by rw [hnone] at h; cases h⟩,
-                  fun _ => rfl, hI2.inact, hI2.nn⟩
+                  fun _ => rfl, hI2.inact, hI2.isz, hI2.nn⟩
               repeat' split
               all_goals first | exact hI4 | (rw [pruneLoop_id _ hI4.inact]; exact hI4)
             · have happ' : (st.solution.isNone && P.lt (P.goal reached).2 st.approxdif) = false := by
